@@ -28,7 +28,7 @@ ASSUMPTIONS = ["temporary include directories live under the system temp dir and
 DECIDING_MONITORS = ("splits_checked",)
 
 FOLD = ShapeOpts(fold_all=True, prune_empty=True)
-NAMES = ["inc1.inc", "Part_A.INC", "my-file.f90", "sub/dir.part.h", "x.y.z", "UPPER.F90", "inc_2.fi"]
+NAMES = ["inc1.inc", "Part_A.INC", "my-file.f90", "sub/dir.part.h", "x.y.z", "UPPER.F90", "inc_2.fi", "old.f", "legacy.for"]
 
 
 def make_payload(rng, idx, tier):
@@ -151,13 +151,35 @@ def parse(reader, std):
         sm.reader = None
 
 
-def detected_fixed(files):
-    from fparser.common.sourceinfo import get_source_info_str
-
-    return [n for n, t in files.items() if not get_source_info_str(t).is_free]
+def check_raw(payload):
+    """pinned reproducer: main text + include files against the text with the includes expanded by hand"""
+    std, ic = payload["std"], payload.get("ic", True)
+    viols = []
+    work = tempfile.mkdtemp(prefix="vfc13_")
+    try:
+        write_files(work, payload["files"])
+        try:
+            ref = fp.create(std)(fp.FortranStringReader(payload["ref"], ignore_comments=ic))
+        finally:
+            fp.SYMBOL_TABLES.clear()
+        try:
+            tree, err, _ = parse(make_reader(payload["main"], [work], payload.get("reader", "string"), ic, work), std)
+        finally:
+            fp.SYMBOL_TABLES.clear()
+        if tree is None:
+            viols.append(viol(payload.get("key", "resolved-rejected"), err))
+        else:
+            a, b = shape(ref, FOLD), shape(tree, FOLD)
+            if a != b:
+                viols.append(viol(payload.get("key", "resolved-tree-differs"), first_diff(a, b)))
+    finally:
+        shutil.rmtree(work, ignore_errors=True)
+    return {"violations": viols, "digests": [], "monitors": {"splits_checked": 1, "stream_next": 0}, "tally": {}}
 
 
 def check(payload):
+    if payload.get("mode") == "raw":
+        return check_raw(payload)
     P = payload_program(payload)
     std = payload["std"]
     mode, kind, ic = payload["mode"], payload["reader"], payload["ic"]
@@ -182,11 +204,8 @@ def check(payload):
         d2 = os.path.join(work, "d2")
         os.makedirs(d1)
         os.makedirs(d2)
-        fixed_files = detected_fixed(B["files"])
 
         def report(key, detail):
-            if fixed_files and key in ("resolved-tree-differs", "resolved-rejected"):
-                key = "include-file-detected-as-fixed-form"
             viols.append(viol(key, "(%s reader, ignore_comments=%s, %s) %s" % (kind, ic, mode, detail), shrunk={"source": shown}))
 
         if mode in ("resolve", "twodirs"):
@@ -231,7 +250,7 @@ def check(payload):
                     break
                 got = shape(tree, FOLD)
                 if got != want:
-                    key = "resolved-tree-differs" if len(order) == 1 else "include-path-order-not-respected"
+                    key = "resolved-tree-differs"
                     if len(order) == 2 and got == (alt_expected if order[0] == d1 else refshape):
                         key = "include-path-order-not-respected"
                     report(key, "include_dirs %s: %s" % ([os.path.basename(x) for x in order], first_diff(want, got)))
